@@ -8,7 +8,7 @@ namespace GnoVerif.C25
 theorem verify_ok_iff (H : Bytes → Bytes) (p : SimpleProof) (root : Option Bytes) (leaf : Bytes) :
     p.verify H root leaf = .ok () ↔
       0 ≤ p.total ∧ 0 ≤ p.index ∧ bytesEqual p.leafHash (some (leafHash H leaf)) = true ∧
-      bytesEqual (p.computeRootHash H) root = true := by
+      p.computeRootHash H ≠ none ∧ bytesEqual (p.computeRootHash H) root = true := by
   unfold SimpleProof.verify
   simp only []
   split
@@ -28,8 +28,18 @@ theorem verify_ok_iff (H : Bytes → Bytes) (p : SimpleProof) (root : Option Byt
           · intro h; cases h
           · intro h; simp_all
         · constructor
-          · intro _; refine ⟨by omega, by omega, by simp_all, by simp_all⟩
+          · intro _; refine ⟨by omega, by omega, by simp_all, by simp_all, by simp_all⟩
           · intro _; rfl
+
+/-- the pre-96b4d2262f `Verify` (no `computedHash == nil` test), kept only to state what the fix removed -/
+def SimpleProof.verifyOld (H : Bytes → Bytes) (sp : SimpleProof) (rootHash : Option Bytes) (leaf : Bytes) :
+    Except VerifyErr Unit :=
+  let lh := C25.leafHash H leaf
+  if sp.total < 0 then .error .total
+  else if sp.index < 0 then .error .index
+  else if ¬ bytesEqual sp.leafHash (some lh) then .error .leafHash
+  else if ¬ bytesEqual (sp.computeRootHash H) rootHash then .error .root
+  else .ok ()
 
 /-- when the computed root is `some`, the guard held and the hash is the path hash -/
 theorem computeRootHash_some {H : Bytes → Bytes} {p : SimpleProof} {h : Bytes}
@@ -71,22 +81,30 @@ theorem hashFrom_of_ne_nil {H : Bytes → Bytes} {items : List Bytes} (hne : ite
   have : items.isEmpty = false := by cases items <;> simp_all
   rw [this, ← treeHash_eq H _ items rfl hne]; rfl
 
-/-- the data the verifier has established when `verify` succeeds against a non-empty root -/
+/-- the data the verifier has established when `verify` succeeds (against ANY root):
+the root is a non-empty byte string and equals the hash chain of the claimed path -/
 theorem verify_ok_path {H : Bytes → Bytes} {sz : Nat} (hsz : ∀ x, (H x).length = sz) (hpos : 0 < sz)
-    {p : SimpleProof} {r leaf : Bytes} (hr : r ≠ [])
-    (hv : p.verify H (some r) leaf = .ok ()) :
-    0 ≤ p.index ∧ p.index < p.total ∧ p.leafHash = some (leafHash H leaf) ∧
+    {p : SimpleProof} {root : Option Bytes} {leaf : Bytes}
+    (hv : p.verify H root leaf = .ok ()) :
+    ∃ r, root = some r ∧ r ≠ [] ∧ 0 ≤ p.index ∧ p.index < p.total ∧ p.leafHash = some (leafHash H leaf) ∧
       chfaPath H (turns p.index.toNat p.total.toNat) (some (leafHash H leaf)) p.aunts.reverse = some r := by
-  obtain ⟨_, _, hl, hc⟩ := (verify_ok_iff H p _ leaf).1 hv
-  have hl' := bytesEqual_some_nonempty (ne_nil_of_len hpos (by simp [leafHash, hsz])) hl
-  have hc' : p.computeRootHash H = some r := by
-    unfold bytesEqual at hc
-    cases hcr : p.computeRootHash H with
-    | none => rw [hcr] at hc; simp at hc; exact absurd hc hr
-    | some x => rw [hcr] at hc; simp at hc; rw [hc]
-  obtain ⟨a, b, c⟩ := computeRootHash_some hc'
-  rw [hl'] at c
-  exact ⟨a, b, hl', c⟩
+  obtain ⟨_, _, hl, hn, hc⟩ := (verify_ok_iff H p _ leaf).1 hv
+  have hlh : (leafHash H leaf).length = sz := by simp [leafHash, hsz]
+  have hl' := bytesEqual_some_nonempty (ne_nil_of_len hpos hlh) hl
+  cases hcr : p.computeRootHash H with
+  | none => exact absurd hcr hn
+  | some c =>
+    obtain ⟨a, b, cp⟩ := computeRootHash_some hcr
+    rw [hl'] at cp
+    have hclen : c.length = sz := chfaPath_len hsz _ _ _ _ hlh cp
+    have hcne : c ≠ [] := ne_nil_of_len hpos hclen
+    rw [hcr] at hc
+    have hroot : root = some c := by
+      unfold bytesEqual at hc
+      cases root with
+      | none => simp at hc; exact absurd hc hcne
+      | some x => simp at hc; rw [hc]
+    exact ⟨c, hroot, hcne, a, b, hl', cp⟩
 
 theorem complete_model (H : Bytes → Bytes) (items : List Bytes) (i : Nat) (hi : i < items.length) :
     (proofFor H items i).verify H (simpleHashFromByteSlices H items) items[i] = .ok () := by
@@ -94,14 +112,17 @@ theorem complete_model (H : Bytes → Bytes) (items : List Bytes) (i : Nat) (hi 
   rw [verify_ok_iff]
   have hget : items.getD i [] = items[i] := by simp [List.getD, List.getElem?_eq_getElem hi]
   have hget' : items[i]?.getD [] = items[i] := by simp [List.getElem?_eq_getElem hi]
-  refine ⟨by simp [proofFor], by simp [proofFor], ?_, ?_⟩
-  · simp [proofFor, hget', bytesEqual]
-  · rw [computeRootHash_of_path (by simp [proofFor]) (by simp [proofFor]; omega), hashFrom_of_ne_nil hne]
+  have hcr : (proofFor H items i).computeRootHash H = some ((build items).hash H) := by
+    rw [computeRootHash_of_path (by simp [proofFor]) (by simp [proofFor]; omega)]
     have hpath := leafAt_turns _ items i rfl hi
     rw [List.getElem?_eq_getElem hi] at hpath
     have := complete_tree H (build items) _ _ hpath
     simp only [proofFor, Int.toNat_natCast, hget]
     rw [auntsFor_rev H _ items i rfl hi, this]
+  refine ⟨by simp [proofFor], by simp [proofFor], ?_, ?_, ?_⟩
+  · simp [proofFor, hget', bytesEqual]
+  · rw [hcr]; simp
+  · rw [hcr, hashFrom_of_ne_nil hne]
     exact bytesEqual_refl _
 
 /-- every leaf path of `build items` is the turn sequence of an index -/
@@ -193,6 +214,7 @@ theorem verify_congr_turns {H : Bytes → Bytes} {p q : SimpleProof} (root : Opt
     (ht : turns p.index.toNat p.total.toNat = turns q.index.toNat q.total.toNat) :
     p.verify H root leaf = q.verify H root leaf := by
   unfold SimpleProof.verify
+  simp only []
   rw [computeRootHash_congr_turns hp1 hp2 hq1 hq2 hl ha ht, hl]
   have a1 : ¬ p.total < 0 := by omega
   have a2 : ¬ q.total < 0 := by omega
@@ -201,15 +223,18 @@ theorem verify_congr_turns {H : Bytes → Bytes} {p q : SimpleProof} (root : Opt
   simp only [a1, a2, a3, a4, if_false]
 
 theorem sound_model {H : Bytes → Bytes} {sz : Nat} (hsz : ∀ x, (H x).length = sz) (hpos : 0 < sz)
-    {items : List Bytes} {p : SimpleProof} {leaf : Bytes} (hne : items ≠ [])
+    {items : List Bytes} {p : SimpleProof} {leaf : Bytes}
     (hv : p.verify H (simpleHashFromByteSlices H items) leaf = .ok ()) :
-    0 ≤ p.index ∧ p.index < p.total ∧
+    items ≠ [] ∧ 0 ≤ p.index ∧ p.index < p.total ∧
     ((build items).leafAt (turns p.index.toNat p.total.toNat) = some leaf ∨
       IsCollision H (collisionOf H items p leaf)) := by
-  rw [hashFrom_of_ne_nil hne] at hv
-  have hr : (build items).hash H ≠ [] := ne_nil_of_len hpos (tree_hash_len hsz _)
-  obtain ⟨h1, h2, _, hc⟩ := verify_ok_path hsz hpos hr hv
-  exact ⟨h1, h2, sound_tree hsz _ _ _ _ hc⟩
+  obtain ⟨r, hr, _, h1, h2, _, hc⟩ := verify_ok_path hsz hpos hv
+  have hne : items ≠ [] := by
+    intro h; subst h; simp [simpleHashFromByteSlices] at hr
+  rw [hashFrom_of_ne_nil hne] at hr
+  have : r = (build items).hash H := by simpa using hr.symm
+  subst this
+  exact ⟨hne, h1, h2, sound_tree hsz _ _ _ _ hc⟩
 
 /-- the turn sequence has at most `e` turns when there are at most `2^e` leaves -/
 theorem turns_length_le : ∀ (e n i : Nat), n ≤ 2 ^ e → (turns i n).length ≤ e := by
@@ -277,8 +302,9 @@ theorem valueOp_ok_verify {H : Bytes → Bytes} {key value r : Bytes} {p : Simpl
         | some x => rw [hcr] at h2; simp at h2; rw [h2]
       obtain ⟨a, b, _⟩ := computeRootHash_some hc
       rw [verify_ok_iff]
-      refine ⟨by omega, a, ?_, ?_⟩
+      refine ⟨by omega, a, ?_, ?_, ?_⟩
       · unfold bytesEqual at h1 ⊢; have := eq_of_beq h1; rw [this]; exact beq_self_eq_true _
+      · rw [hc]; simp
       · rw [hc]; exact bytesEqual_refl _
 
 theorem getSplitPoint_7 : getSplitPoint 7 = 4 := getSplitPoint_eq (e := 2) (by decide) (by decide)
